@@ -32,6 +32,27 @@ theorem versionCheck_same (tb : Val) : versionCheck tb (.str Gen.Vinegar.version
 /-- `1` is the marker; the fast path exists and (after the repair) requires empty arguments -/
 theorem gen_fastPath_shape : Gen.Vinegar.stopFastPathExists = true ∧ Gen.Vinegar.stopFastPathRequiresNoArgs = true := by decide
 theorem gen_sliceHashable : Gen.Vinegar.sliceHashable = true := by decide
+/-- measured on a probe module with a PEP 562 canary: looking the peer-chosen class name up runs no module code -/
+theorem gen_moduleLookupPure : Gen.Vinegar.moduleLookupPure = true := by decide
+theorem moduleCodeEvents_nil (r : RecvCfg) (env : Env) (m c : Val) : moduleCodeEvents r env m c = [] := by
+  simp [moduleCodeEvents, gen_moduleLookupPure]
+theorem moduleLookup_str (env : Env) (m : Val) (c : Str) : moduleLookup env m (.str c) = .ok (env.modAttr m c, c) := by
+  simp [moduleLookup, gen_moduleLookupPure]
+theorem moduleLookup_exc (env : Env) (m c : Val) (nn : Bool) (cn : Str)
+    (h : moduleLookup env m c = .ok (.excClass nn, cn)) : env.modAttr m cn = .excClass nn := by
+  unfold moduleLookup at h
+  split at h
+  · simp only [gen_moduleLookupPure, Bool.not_true, Bool.false_and, Bool.false_eq_true, ↓reduceIte] at h
+    have h' := Except.ok.inj h
+    have h1 := congrArg Prod.fst h'
+    have h2 := congrArg Prod.snd h'
+    simp only at h1 h2
+    rw [← h2]; exact h1
+  · split at h
+    · cases h
+    · have h' := Except.ok.inj h
+      have h1 := congrArg Prod.fst h'
+      simp at h1
 /-- measured on a probe class with canaries: the instance is made by `cls.__new__(cls)`; `__init__` does not run -/
 theorem gen_instantiatesByNew : Gen.Vinegar.instantiatesByNew = true := by decide
 theorem instantiationEvent_eq (c : ClsRef) : instantiationEvent c = .new c := by
